@@ -4,3 +4,4 @@ import AITB.Model.Factored
 import AITB.Props.C14
 import AITB.Model.VE
 import AITB.Model.VETable
+import AITB.Model.GVE
